@@ -40,11 +40,11 @@ Consistent(p) ==
                        \cup {<<Keys[j], "LEASE">> : x \in {1} \cap (IF p.lease[j] THEN {1} ELSE {})} : j \in KI}
   /\ p.ranged = {Keys[j] : j \in {j \in KI : p.simple[j] # None \/ p.kids[j] # {} \/ p.lease[j]}}
 
-RECURSIVE Run(_, _)
-Run(ops, s) == IF ops = <<>> THEN <<>>
-               ELSE LET r == Step(s, Head(ops)) IN <<[ret |-> r.ret.e, proj |-> Proj(r.st)]>> \o Run(Tail(ops), r.st)
+RECURSIVE Run(_, _, _, _)
+Run(ops, i, s, acc) == IF i > Len(ops) THEN acc
+                       ELSE LET r == Step(s, ops[i]) IN Run(ops, i + 1, r.st, Append(acc, [ret |-> r.ret.e, proj |-> Proj(r.st)]))
 
-Prefixes(h) == <<[ret |-> "", proj |-> Proj(Empty)]>> \o Run(h.ops, Empty)     \* index j+1 = after j operations
+Prefixes(h) == Run(h.ops, 1, Empty, <<[ret |-> "", proj |-> Proj(Empty)]>>)     \* index j+1 = after j operations
 Legal(p, h, acked) == \E j \in acked..Len(h.ops) : p = Prefixes(h)[j + 1].proj
 
 VARIABLES c, done
@@ -52,5 +52,5 @@ Init2 == st = Empty /\ c \in 1..Len(Hists) /\ done = FALSE
 Next2 == ~done /\ done' = TRUE /\ UNCHANGED <<c, st>> /\ Emit([i |-> c, pre |-> Prefixes(Hists[c])])
 Spec2 == Init2 /\ [][Next2]_<<c, done, st>>
 (* the reference model keeps its own listings consistent in every prefix state of every history *)
-ModelConsistent == \A j \in 1..Len(Hists[c].ops) + 1 : Consistent(Prefixes(Hists[c])[j].proj)
+ModelConsistent == done \/ LET pre == Prefixes(Hists[c]) IN \A j \in 1..Len(pre) : Consistent(pre[j].proj)
 =============================================================================
